@@ -26,6 +26,7 @@ META = dict(
          "slope eta_j >= mu_j for fixed_alternative_mean/optimal_comparison (C13 known findings K2).",
     technique="dependency-lag dataflow + AST-to-algebra identities + override classification",
 )
+META["text"] += ' (R7 = C13.R3) the registered bets stay in [0, 1/mu_j], so the betting factors are non-negative as well.'
 
 REL = nnm.REL
 
